@@ -17,6 +17,8 @@ size_t ARG_CAP_HINT;      /* 0: generous command capacity; else the capacity to 
 static cat_return_state policy(struct hcall *h) { if (h->kind == K_WRITE) { wh_calls++; wh_argsnum = h->args_num; } return CAT_RETURN_STATE_OK; }
 static int vpolicy(int ci, int vi, int dir, size_t ws) { (void)ci; if (dir == 1) { if (nvw < 16) { vw[nvw].vi = vi; vw[nvw].ws = ws; } nvw++; } return 0; }
 
+static long late_event_at; static bool target_implicit;
+static void on_read(size_t off, uint8_t ch) { (void)ch; if ((long)off == late_event_at) { (void)cat_trigger_unsolicited_event(W.at, NOISE_CMD, chance(50) ? CAT_CMD_TYPE_READ : CAT_CMD_TYPE_TEST); CNT("events_raised_while_the_line_ends"); } }
 void args_describe(FILE *f) { w_describe(f); fprintf(f, "%s\n%s\n", line_desc, ARG_NOTE); io_describe(f); }
 
 static const char *prop_of(const struct cat_variable *v) { return v->type <= CAT_VAR_NUM_HEX ? "C04" : "C05"; }
@@ -32,6 +34,7 @@ struct cat_command *args_world(int nv, bool with_handler, bool need_all, bool sh
         struct cat_command *arr = w_group(ncmd, false);
         struct cat_command *c = &arr[tpos];
         c->name = xstr("+S"); c->need_all_vars = need_all; c->write = with_handler ? h_write : NULL;
+        c->implicit_write = target_implicit = chance(15);      /* "AT+S<arguments>": the arguments start right behind the name */
         for (size_t i = 0; i < ncmd; i++) {
                 if (i == tpos) continue;
                 char nm[16]; unsigned k = rn(6);
@@ -62,11 +65,21 @@ void args_run_and_judge(struct cat_command *c, const uint8_t *args, size_t n, co
         int nv = (int)c->var_num;
         for (int j = 0; j < nv; j++) memcpy(before[j], c->var[j].data, c->var[j].data_size);
         nvw = 0; wh_calls = 0; wh_argsnum = 0;
-        in_reset(); in_puts(chance(50) ? "AT+S=" : "at+s="); in_put(args, n); in_putc('\n');
+        in_reset(); in_puts(chance(50) ? "AT+S" : "at+s"); if (!target_implicit) in_putc('='); else CNT("lines_to_an_implicit_write_command"); in_put(args, n); in_putc('\n');
+        late_event_at = (NOISE_CMD && chance(50)) ? (long)INLEN - 1 - (long)rn(3) : -1;      /* an event raised while the last argument bytes / the LF arrive: it is formatted next to the complete argument text */
+        ON_READ = on_read;
         out_reset(); units_reset();
         { char ab[700]; fmt_bytes(ab, sizeof ab, args, n > 200 ? 200 : n); snprintf(line_desc, sizeof line_desc, "arguments (%zu bytes): \"%s\"%s", n, ab, n > 200 ? "..." : ""); }
         if (run_quiet(quiet_bound() + 4 * (long)n) < 0) { inconclusive("no quiescence (C15's subject)"); return; }
         { struct ref_line rl; ref_parse_line(INB, INLEN - 1, W.capA, &rl);
+          if (rl.cls == RL_ERROR && rl.err == RE_ARGS_TOO_LONG) {
+                /* the argument text does not fit the command buffer (with its terminator): ERROR, nothing decoded, nothing stored, no handler */
+                CNT("lines_one_or_more_bytes_too_long");
+                bool changed = false; for (int j = 0; j < nv; j++) if (memcmp(c->var[j].data, before[j], c->var[j].data_size) != 0) changed = true;
+                if (!(RESULT_CODES == 1 && LAST_CODE == 'E') || wh_calls != 0 || nvw != 0 || changed)
+                        viol(focus_prop, "over-long-line-not-rejected", "%zu argument bytes on a command capacity of %zu: result %c, %d handler call(s), %d variable callback(s), variables %s", n, W.capA, LAST_CODE ? LAST_CODE : '-', wh_calls, nvw, changed ? "changed" : "unchanged");
+                return;
+          }
           if (rl.cls != RL_REQ || rl.kind != K_WRITE || W.cmd[rl.ci] != c) { CNT("lines_not_a_write_request_skipped"); return; } }   /* e.g. '?' as first byte turns the line into a TEST request */
         if (!ref_writable(c)) {
                 /* nothing writable: the arguments are not decoded at all; the write handler (if any) gets the raw text, otherwise ERROR (gating, C08/C09) */
